@@ -282,7 +282,7 @@ theorem winv_run_wcvw {σ : St} (x inp j seq : Nat) (I : WInv σ) (hpc : (σ.th 
   · intro a b _ j' seq' tg h; simp only [stepRun, hpc] at h; wsimp
   · intro a b _ j' seq' tg h; simp only [stepRun, hpc] at h; wsimp
 
-theorem waitDone_pc (σ : St) (t : Nat) : ((waitDone σ t).th t).pc = .la1 := by
+theorem waitDone_pc (σ : St) (t : Nat) : ((waitDone σ t).th t).pc = .la1 ∨ ((waitDone σ t).th t).pc = .is1 := by
   unfold waitDone; simp only []; split <;> simp [St.goto, St.setTh, upd]
 
 theorem waitDone_wd (σ : St) (t : Nat) : (waitDone σ t).wdata = σ.wdata := waitDone_wdata σ t
@@ -297,23 +297,39 @@ theorem winv_run_c2_locked {σ : St} (x inp j seq : Nat) (tg : Option Nat) (I : 
       simp only [stepRun, hpc, checkDone, hb, if_true]
     have hd := wd_fields (waitDone_wd { σ.flush x with wlockOwner := none } x)
     obtain ⟨d1, d2, d3, d4, d5, d6, d7⟩ := hd
-    have hp := waitDone_pc { σ.flush x with wlockOwner := none } x
-    apply winv_gen x inp I
-    · rw [e, d1]; rfl
-    · rw [e, d2]; rfl
-    · rw [e, d5]; rfl
-    · rw [e, d6]; rfl
-    · rw [e, d7]; rfl
-    · rw [e, hp]; rfl
-    · refine Or.inr (Or.inr ⟨hown, ?_, ?_⟩)
-      · rw [e, d3]
+    rcases waitDone_pc { σ.flush x with wlockOwner := none } x with hp | hp
+    · apply winv_gen x inp I
+      · rw [e, d1]; rfl
+      · rw [e, d2]; rfl
+      · rw [e, d5]; rfl
+      · rw [e, d6]; rfl
+      · rw [e, d7]; rfl
       · rw [e, hp]; rfl
-    · intro t _ h; rw [e, d4] at h; exact h
-    · intro h; rw [hpc] at h; wsimp
-    · intro h; rw [hpc] at h; wsimp
-    · intro a b _ j' seq' hs; unfold subjB at hs; rw [e, hp] at hs; simp at hs
-    · intro a b _ j' seq' tg' h; rw [e, hp] at h; cases h
-    · intro a b _ j' seq' tg' h; rw [e, hp] at h; cases h
+      · refine Or.inr (Or.inr ⟨hown, ?_, ?_⟩)
+        · rw [e, d3]
+        · rw [e, hp]; rfl
+      · intro t _ h; rw [e, d4] at h; exact h
+      · intro h; rw [hpc] at h; wsimp
+      · intro h; rw [hpc] at h; wsimp
+      · intro a b _ j' seq' hs; unfold subjB at hs; rw [e, hp] at hs; simp at hs
+      · intro a b _ j' seq' tg' h; rw [e, hp] at h; cases h
+      · intro a b _ j' seq' tg' h; rw [e, hp] at h; cases h
+    · apply winv_gen x inp I
+      · rw [e, d1]; rfl
+      · rw [e, d2]; rfl
+      · rw [e, d5]; rfl
+      · rw [e, d6]; rfl
+      · rw [e, d7]; rfl
+      · rw [e, hp]; rfl
+      · refine Or.inr (Or.inr ⟨hown, ?_, ?_⟩)
+        · rw [e, d3]
+        · rw [e, hp]; rfl
+      · intro t _ h; rw [e, d4] at h; exact h
+      · intro h; rw [hpc] at h; wsimp
+      · intro h; rw [hpc] at h; wsimp
+      · intro a b _ j' seq' hs; unfold subjB at hs; rw [e, hp] at hs; simp at hs
+      · intro a b _ j' seq' tg' h; rw [e, hp] at h; cases h
+      · intro a b _ j' seq' tg' h; rw [e, hp] at h; cases h
   · -- condition does not hold: wait on the condvar
     have hb' : checkVal seq tg σ.writers = false := by simpa using hb
     apply winv_gen x inp I
@@ -637,23 +653,39 @@ theorem winv_run_c2_parked {σ : St} (x inp j seq : Nat) (tg : Option Nat) (I : 
       simp only [stepRun, hpc, checkDone, hb, if_true]
     have hd := wd_fields (waitDone_wd (σ.flush x) x)
     obtain ⟨d1, d2, d3, d4, d5, d6, d7⟩ := hd
-    have hp := waitDone_pc (σ.flush x) x
-    apply winv_gen x inp I
-    · rw [e, d1]; rfl
-    · rw [e, d2]; rfl
-    · rw [e, d5]; rfl
-    · rw [e, d6]; rfl
-    · rw [e, d7]; rfl
-    · rw [e, hp]; rfl
-    · refine Or.inl ⟨?_, ?_⟩
-      · rw [e, d3]; rfl
-      · rw [e, hp, hpc]; rfl
-    · intro t _ h; rw [e, d4] at h; exact h
-    · intro h; rw [hpc] at h; wsimp
-    · intro h; rw [hpc] at h; wsimp
-    · intro a b _ j' seq' hs; unfold subjB at hs; rw [e, hp] at hs; simp at hs
-    · intro a b _ j' seq' tg' h; rw [e, hp] at h; cases h
-    · intro a b _ j' seq' tg' h; rw [e, hp] at h; cases h
+    rcases waitDone_pc (σ.flush x) x with hp | hp
+    · apply winv_gen x inp I
+      · rw [e, d1]; rfl
+      · rw [e, d2]; rfl
+      · rw [e, d5]; rfl
+      · rw [e, d6]; rfl
+      · rw [e, d7]; rfl
+      · rw [e, hp]; rfl
+      · refine Or.inl ⟨?_, ?_⟩
+        · rw [e, d3]; rfl
+        · rw [e, hp, hpc]; rfl
+      · intro t _ h; rw [e, d4] at h; exact h
+      · intro h; rw [hpc] at h; wsimp
+      · intro h; rw [hpc] at h; wsimp
+      · intro a b _ j' seq' hs; unfold subjB at hs; rw [e, hp] at hs; simp at hs
+      · intro a b _ j' seq' tg' h; rw [e, hp] at h; cases h
+      · intro a b _ j' seq' tg' h; rw [e, hp] at h; cases h
+    · apply winv_gen x inp I
+      · rw [e, d1]; rfl
+      · rw [e, d2]; rfl
+      · rw [e, d5]; rfl
+      · rw [e, d6]; rfl
+      · rw [e, d7]; rfl
+      · rw [e, hp]; rfl
+      · refine Or.inl ⟨?_, ?_⟩
+        · rw [e, d3]; rfl
+        · rw [e, hp, hpc]; rfl
+      · intro t _ h; rw [e, d4] at h; exact h
+      · intro h; rw [hpc] at h; wsimp
+      · intro h; rw [hpc] at h; wsimp
+      · intro a b _ j' seq' hs; unfold subjB at hs; rw [e, hp] at hs; simp at hs
+      · intro a b _ j' seq' tg' h; rw [e, hp] at h; cases h
+      · intro a b _ j' seq' tg' h; rw [e, hp] at h; cases h
   · -- the task is put on the list
     have hb' : checkVal seq tg σ.writers = false := by simpa using hb
     have e : (stepRun σ x inp).2 = ({ σ.flush x with cwaitL := σ.cwaitL ++ [x], cwFor := upd σ.cwFor x (j, seq) }).goto x .psl := by
